@@ -59,9 +59,9 @@ func main() {
 		}
 	}
 	t0 := time.Now()
-	timeout := 20 * time.Second
+	timeout := 30 * time.Second
 	if *tier == "thorough" {
-		timeout = 60 * time.Second
+		timeout = 90 * time.Second
 	}
 	if *timeoutS > 0 {
 		timeout = time.Duration(*timeoutS) * time.Second
